@@ -174,4 +174,17 @@ def decPhOf : RE → RE
   | .seq _ (.seq _ (.seq _ (.seq _ (.seq _ (.seq (.look _ _ (.seq x _)) _))))) => x
   | _ => .eps
 
+/-! ### what may FOLLOW a literal (carrier contract of `RTV.Props.C03Extract`, audit item 13)
+
+The entries of an extractor list that are outside the digit family (`\d+\s*(k|M|T|G|b)`, `\d+\s+{RoundNumberIntegerRegex}`,
+`\d+\s+dozen`, `\d+\s+(over|in|out of)\s+…`) read a WORD after the literal.  `follow` = that culture's regenerated word
+list (RTV/Gen/NumFollow.lean), `lower` = the simple lower-case mapping. -/
+
+/-- the first word of the text after a literal: skip `\s*`, take the run of `\w` characters -/
+def firstWord (T : Tables) (post : Str) : Str := (post.dropWhile T.space).takeWhile T.word
+
+/-- the first word after the literal (lower-cased) is one of the words that continue a literal -/
+def isFollower (T : Tables) (lower : Nat → Nat) (follow : List Str) (post : Str) : Bool :=
+  follow.contains ((firstWord T post).map lower)
+
 end RTV.NumExtract
